@@ -5,7 +5,7 @@ From Coq Require Import List NArith ZArith.
 From DC Require Import BitMap.Model.
 From DC Require Window.Model.
 From DC Require Grid.Model.
-From DC Require Adjustable.Model.
+From DC Require Adjustable.Model Adjustable.Overflow.
 From DC Require Graph.UltraGraph Graph.Spec Graph.ShortestPath.
 From DC Require Context.Model Context.Spec.
 From DC Require Collections.Model.
@@ -22,7 +22,7 @@ Extraction "model.ml"
   BitMap.Model.bitmap_model_entry BitMap.Model.bitmap_orig_entry BitMap.Model.bitmap_spec_entry
   Window.Model.window_model_entry Window.Model.window_spec_entry
   Grid.Model.grid_model_entry Grid.Model.grid_spec_entry
-  Adjustable.Model.adjustable_model_entry Adjustable.Model.adjustable_check_entry
+  Adjustable.Model.adjustable_model_entry Adjustable.Model.adjustable_check_entry Adjustable.Overflow.adjustable_wrap_entry
   Graph.UltraGraph.ugraph_model_entry Graph.Spec.ugraph_check_entry Graph.ShortestPath.spath_check_entry
   Context.Model.context_model_entry Context.Spec.context_check_entry
   Collections.Model.collections_model_entry Collections.Model.collections_check_entry
